@@ -215,6 +215,10 @@ def gen(rng, tier, index):
     rerun = rng.choice([None, 'same', 'other'])
     second_stop = rng.choice([0, tick, 3 * tick]) \
         if rng.random() < 0.15 else None
+    if second_stop and shape == 'infinite' and text.startswith('time 0\n'):
+        # a busy loop whose first stop is lost (known finding) would spin
+        # through the step budget before a late second stop arrives
+        second_stop = min(second_stop, 0.05)
     pre_stop = None
     if followers and rng.random() < 0.2:
         # an earlier stop aimed at a job that is still waiting in the queue
